@@ -12,7 +12,7 @@ POOL_MAX = 9
 
 
 class Obj:
-    __slots__ = ('kind', 'ref', 'dense', 'scale', 'herm', 'tag', 'traj', 'uid', 'norm2', 'retired')
+    __slots__ = ('kind', 'ref', 'dense', 'scale', 'herm', 'tag', 'traj', 'uid', 'norm2', 'retired', 'version')
 
     def __init__(self, kind, ref, tag, uid):
         self.kind = kind
@@ -25,6 +25,7 @@ class Obj:
         self.traj = None
         self.norm2 = None
         self.retired = False
+        self.version = 0
 
 
 def snap_q(q):
@@ -104,6 +105,7 @@ class TNCore(SessionBase):
     def resync(self, o):
         """Recompute the dense model of an object from its tensors (my own contraction)."""
         r = o.ref
+        o.version += 1
         if not self.structurally_sound(r, o.kind):
             o.retired = True
             o.dense = None
